@@ -327,6 +327,13 @@ func (b *bundle) exec(l *letter) (*blockOutcome, error) {
 		}
 	}
 	b.blockNo++
+	if os.Getenv("VERIF_DEBUG") != "" {
+		var codes []string
+		for _, tr := range out.results[0].TxResults {
+			codes = append(codes, fmt.Sprintf("%d(%s)", tr.Code, tr.Log))
+		}
+		fmt.Fprintf(os.Stderr, "DEBUG height=%d epoch=%d letter=%q codes=%v panic=%q\n", b.ref().Height, epochOf(b.ref()), l.Name, codes, out.results[0].Panic)
+	}
 	return out, nil
 }
 
